@@ -8,7 +8,7 @@ use zeromq::SocketEvent;
 use zvcore::evidence::{Check, Tier};
 use zvcore::refcodec as rc;
 
-const BEHAVIOURS: [&str; 4] = ["goes-silent", "closes", "switches-to-garbage", "resets"];
+const BEHAVIOURS: [&str; 5] = ["goes-silent", "closes", "switches-to-garbage", "resets", "sends-a-malformed-READY-and-closes"];
 
 #[derive(Clone, Debug)]
 struct Case {
@@ -213,6 +213,34 @@ async fn run_case(c: &Case) -> Vec<(String, String)> {
     let hs = rc::handshake(c.ty.peer_type(), None);
     let mut bads: Vec<RawStream> = Vec::new();
     for _ in 0..c.bad_clients {
+        if c.behaviour == 4 {
+            // a valid greeting, then a COMPLETE command frame whose inner lengths are inconsistent (variant = offset), then close
+            let mut body: Vec<u8> = Vec::new();
+            match c.offset {
+                0 => { body.push(5); body.extend_from_slice(b"READY"); body.push(11); body.extend_from_slice(b"Socket-Type"); body.extend_from_slice(&[0, 0]); }
+                1 => { body.push(5); body.extend_from_slice(b"READY"); body.push(11); body.extend_from_slice(b"Socket-Type"); }
+                2 => { body.push(5); body.extend_from_slice(b"READY"); body.push(0xff); }
+                3 => { body.push(5); body.extend_from_slice(b"READY"); body.push(11); body.extend_from_slice(b"Socket-Type"); body.extend_from_slice(&[0, 0, 0, 0xff]); body.extend_from_slice(b"PUSH"); }
+                4 => { body.push(6); body.extend_from_slice(b"READY"); }
+                5 => { body.push(5); body.extend_from_slice(b"READY"); body.push(11); body.extend_from_slice(b"Socket-Type"); body.extend_from_slice(&[0, 0, 0, 4]); body.extend_from_slice(b"PUS"); }
+                6 => { body.push(5); body.extend_from_slice(b"READY"); body.push(11); body.extend_from_slice(b"Socket-Type"); body.extend_from_slice(&[0, 0, 0]); }
+                _ => { body.push(0); }
+            }
+            let mut bytes = rc::default_greeting();
+            bytes.push(0x04);
+            bytes.push(body.len() as u8);
+            bytes.extend(body);
+            match RawStream::connect(&ep).await {
+                Ok(mut s) => {
+                    let _ = s.write_all(&bytes).await;
+                    // the library answers with its own greeting (+ READY); wait for it to close or a moment to pass, then close
+                    let _ = s.wait_closed(Duration::from_millis(300)).await;
+                    drop(s);
+                }
+                Err(e) => viol.push((format!("bound-endpoint-refuses/{}", BEHAVIOURS[c.behaviour]), format!("{}: a later one of these clients could not even connect to the still-bound endpoint: {}", what, e))),
+            }
+            continue;
+        }
         if c.behaviour == 3 {
             // abortive close (RST) by a synchronous client: connect, write and reset happen without this task
             // yielding, so on a current-thread runtime the listener has not looked at the connection yet
@@ -292,7 +320,7 @@ async fn run_case(c: &Case) -> Vec<(String, String)> {
     // monitor: accept failures for closing / garbage clients, never an Accepted for a bad client
     // a client that closes mid-handshake must be reported; garbage may also merely stall the handshake
     // (e.g. a flags byte announcing a long frame that never arrives), which is not a failure
-    let want_failed = if c.behaviour == 1 { c.bad_clients } else { 0 };
+    let want_failed = if c.behaviour == 1 || c.behaviour == 4 { c.bad_clients } else { 0 };
     let t0 = Instant::now();
     loop {
         pump(&mut monitor, &mut mon);
@@ -354,6 +382,14 @@ fn all_cases(tier: Tier) -> Vec<Case> {
                         v.push(Case { ty, tr, offset, behaviour, bad_clients: 1, extra_goods: 0 });
                     }
                 }
+            }
+        }
+    }
+    // a complete but malformed READY, then close: 8 variants of inconsistent inner lengths (variant number in `offset`)
+    for ty in ALL_TYPES {
+        for tr in [Tr::Tcp4, Tr::Ipc] {
+            for variant in 0..8usize {
+                v.push(Case { ty, tr, offset: variant, behaviour: 4, bad_clients: 1, extra_goods: 0 });
             }
         }
     }
@@ -508,7 +544,7 @@ pub fn run(tier: Tier, replay: Option<String>) -> i32 {
     ck.cov("evaluations", done);
     ck.cov("distinct_nontrivial", cases.iter().filter(|c| c.offset > 0 || c.behaviour != 0).count() as u64);
     ck.cov("exhaustive", skipped == 0);
-    ck.cov("rule", format!("for each of the 9 bound socket types over {}: a raw client that sends the first k bytes of a valid greeting+READY for EVERY k in 0..N-1 and then {{goes silent, closes, switches to 96 bytes of garbage}} (and, at the structurally interesting offsets over TCP, aborts with a reset from a synchronous client - on a current-thread runtime, where the reset is certain to precede the listener's look at the connection, and on a multi-thread one), one such client (three at every 16th offset{}), with a well-behaved raw client connecting before, while and after; plus a scale family (PULL/PUB/ROUTER/REP over TCP v4 and IPC: 1 / 8 / 64 (thorough 256) silent clients stalled at offsets 0, 10, 64, 70, then 20 (thorough 100) further well-behaved clients one after the other, each of which must complete its handshake; and 200 (thorough 600) clients that close or switch to garbage at offsets 10 / 70 followed by well-behaved ones - not exhaustive in the counts): {} cases, all distinct; non-trivial = the bad client sent at least one byte or misbehaved actively. Oracle (monotone conditions, {} s horizon): the client connecting meanwhile completes its handshake and a message exchange that proves its connection works in the direction(s) the type supports (for round-robin senders: one send per well-behaved client reaches every one of them, so a half-handshaken connection in the rotation is detected); the connection established before still works; the monitor reports AcceptFailed for every client that closes mid-handshake (garbage may merely stall a handshake, which is not a failure) and never more Accepted events than completed handshakes; a client connecting afterwards works too.", match tier { Tier::Quick => "TCP v4 (TCP v6 and IPC at 8 structurally interesting offsets)", Tier::Thorough => "TCP v4, TCP v6 and IPC" }, if tier == Tier::Thorough { " — thorough: at every offset" } else { "" }, cases.len(), e4::HORIZON.as_secs()));
+    ck.cov("rule", format!("for each of the 9 bound socket types over {}: a raw client that sends the first k bytes of a valid greeting+READY for EVERY k in 0..N-1 and then {{goes silent, closes, switches to 96 bytes of garbage}} (and, at the structurally interesting offsets over TCP, aborts with a reset from a synchronous client - on a current-thread runtime, where the reset is certain to precede the listener's look at the connection, and on a multi-thread one), one such client (three at every 16th offset{}), with a well-behaved raw client connecting before, while and after; plus a scale family (PULL/PUB/ROUTER/REP over TCP v4 and IPC: 1 / 8 / 64 (thorough 256) silent clients stalled at offsets 0, 10, 64, 70, then 20 (thorough 100) further well-behaved clients one after the other, each of which must complete its handshake; and 200 (thorough 600) clients that close or switch to garbage at offsets 10 / 70 followed by well-behaved ones - not exhaustive in the counts): {} cases, all distinct; non-trivial = the bad client sent at least one byte or misbehaved actively. Oracle (monotone conditions, {} s horizon): the client connecting meanwhile completes its handshake and a message exchange that proves its connection works in the direction(s) the type supports (for round-robin senders: one send per well-behaved client reaches every one of them, so a half-handshaken connection in the rotation is detected); the connection established before still works; the monitor reports AcceptFailed for every client that closes mid-handshake or after a complete but malformed READY (8 variants of inconsistent inner lengths; garbage may merely stall a handshake, which is not a failure) and never more Accepted events than completed handshakes; a client connecting afterwards works too.", match tier { Tier::Quick => "TCP v4 (TCP v6 and IPC at 8 structurally interesting offsets)", Tier::Thorough => "TCP v4, TCP v6 and IPC" }, if tier == Tier::Thorough { " — thorough: at every offset" } else { "" }, cases.len(), e4::HORIZON.as_secs()));
     ck.sample(case_json(&cases[cases.len() / 2]));
     ck.sample(case_json(&cases[7]));
     ck.assume("OS schedules are not enumerated; 'never completes' is observed as 'not within the 5 s horizon' (correct code needs milliseconds)");
